@@ -75,4 +75,43 @@ theorem label_event (fs : List Fraction) (i : Nat) (n : Numbered) (h : (numberFr
     conv => rhs; rw [hsplit]
     simp [List.filter_append]
 
+/-- two fractions come from the same acquired lot (compared by row, as the code's dictionaries do) -/
+def sameLotAs (f : Fraction) (g : Fraction) : Bool := match g.lot, f.lot with
+  | some a, some b => a.row == b.row
+  | _, _ => false
+
+/-- the acquired-lot label: for a fraction with a lot, k = number of earlier fractions (of the list that is numbered, i.e. the history cut
+    at the to-date) from the same lot, n = their total number in that list — so a lot's fractions are labelled 1/n … n/n in order and later
+    transactions (beyond the cut) never enter n; an income fraction has no lot label -/
+theorem label_lot (fs : List Fraction) (i : Nat) (n : Numbered) (h : (numberFractions fs)[i]? = some n) :
+    (n.f.lot = none → n.lotK = none ∧ n.lotN = none) ∧
+    (∀ l, n.f.lot = some l →
+      n.lotK = some ((fs.take i).filter (sameLotAs n.f)).length ∧ n.lotN = some (fs.filter (sameLotAs n.f)).length ∧
+      ((fs.take i).filter (sameLotAs n.f)).length < (fs.filter (sameLotAs n.f)).length) := by
+  rw [numberFractions_get] at h
+  cases hf : fs[i]? with
+  | none => rw [hf] at h; simp at h
+  | some f =>
+    rw [hf] at h
+    simp only [Option.map_some, Option.some.injEq] at h
+    subst h
+    have hK : (labelOf fs (fs.take i) f).lotK = f.lot.map (fun _ => ((fs.take i).filter (sameLotAs f)).length) := rfl
+    have hN : (labelOf fs (fs.take i) f).lotN = f.lot.map (fun _ => (fs.filter (sameLotAs f)).length) := rfl
+    have hF : (labelOf fs (fs.take i) f).f = f := rfl
+    rw [hK, hN, hF]
+    constructor
+    · intro hn; simp [hn]
+    · intro l hl
+      refine ⟨by simp [hl], by simp [hl], ?_⟩
+      have hi : i < fs.length := by
+        apply Nat.lt_of_not_le; intro hle
+        rw [List.getElem?_eq_none hle] at hf; cases hf
+      have hsplit : fs = fs.take i ++ f :: fs.drop (i + 1) := by
+        have := List.getElem?_eq_some_iff.mp hf
+        obtain ⟨_, hget⟩ := this
+        rw [← hget]; simp
+      have hself : sameLotAs f f = true := by simp [sameLotAs, hl]
+      conv => rhs; rw [hsplit]
+      simp [List.filter_append, List.filter_cons, hself]
+
 end Rp2
